@@ -15,7 +15,9 @@ import time
 
 ROOT = os.path.dirname(os.path.dirname(os.path.abspath(__file__)))
 SPEC = os.path.join(ROOT, "spec")
-HARNESS = os.path.join(ROOT, "harness")
+# selftest runs against a scratch copy of the repository: it points these elsewhere
+HARNESS = os.environ.get("CLV_HARNESS_DIR", os.path.join(ROOT, "harness"))
+OUTDIR = os.environ.get("CLV_OUT_DIR", ROOT)
 JAVA_TRACE = "-Xss1g -Dtlc2.tool.queue.IStateQueue=StateDeque"
 
 
@@ -29,7 +31,7 @@ class Ctx:
         self.tier = tier
         self.seed = seed
         self.t0 = time.time()
-        self.work = os.path.join(ROOT, "work", "%s.%d" % (pid, os.getpid()))
+        self.work = os.path.join(OUTDIR, "work", "%s.%d" % (pid, os.getpid()))
         shutil.rmtree(self.work, ignore_errors=True)
         os.makedirs(self.work)
         self.states = 0
@@ -246,7 +248,7 @@ class Ctx:
             print("KNOWN-FINDING: property=%s %s: %s (%d occurrences)" % (self.pid, kid, k["what"], n))
         rc = 0
         if real:
-            rdir = os.path.join(ROOT, "replays")
+            rdir = os.path.join(OUTDIR, "replays")
             os.makedirs(rdir, exist_ok=True)
             rp = os.path.join(rdir, "%s.json" % self.pid)
             json.dump({"property": self.pid, "tier": self.tier, "seed": self.seed, "count": len(real),
@@ -270,8 +272,8 @@ class Ctx:
               "coverage": cov,
               "assumptions": self.assumptions + (trusted or []),
               "wall_s": wall, "violations": len(real)}
-        os.makedirs(os.path.join(ROOT, "evidence"), exist_ok=True)
-        json.dump(ev, open(os.path.join(ROOT, "evidence", "%s.json" % self.pid), "w"), indent=1)
+        os.makedirs(os.path.join(OUTDIR, "evidence"), exist_ok=True)
+        json.dump(ev, open(os.path.join(OUTDIR, "evidence", "%s.json" % self.pid), "w"), indent=1)
         print("[%s] done in %.1fs: states=%d transitions=%d traces=%d violations=%d known=%d" %
               (self.pid, wall, self.states, self.transitions, self.traces, len(real), sum(n for _, n in hits.values())))
         return rc
@@ -279,6 +281,6 @@ class Ctx:
     def cleanup(self):
         shutil.rmtree(self.work, ignore_errors=True)
         try:
-            os.rmdir(os.path.join(ROOT, "work"))
+            os.rmdir(os.path.join(OUTDIR, "work"))
         except OSError:
             pass
